@@ -30,6 +30,17 @@ theorem generated_source_matches_model :
     LinOp.Generated.C10.closureReturns = ["tensor / self._noise - qqt", "1 / self._noise * (tensor - qqt)"] := by
   decide +kernel
 
+/-- **The constant-diagonal branch is selected by EXACT equality** (`torch.equal(noise, noise[..., :1, :] * ones_like(noise))`,
+the predicate `constantDiag` models), and the bodies of `_init_cache`, `_init_cache_for_constant_diag` and
+`_init_cache_for_non_constant_diag` (QR input, `_q_cache` slicing/scaling, both log-determinant formulas, `_precond_lt`) extracted from
+the working tree are statement for statement the ones the model mirrors.  A changed predicate (e.g. `allclose`) or formula breaks this
+obligation. -/
+theorem generated_init_cache_matches_model :
+    LinOp.Generated.C10.initCache = ["*batch_shape, n, k = self._piv_chol_self.shape", "self._noise = self._diag_tensor._diagonal().unsqueeze(-1)", "noise_first_element = self._noise[..., :1, :]", "self._constant_diag = torch.equal(self._noise, noise_first_element * torch.ones_like(self._noise))", "eye = torch.eye(k, dtype=self._piv_chol_self.dtype, device=self._piv_chol_self.device)", "eye = eye.expand(*batch_shape, k, k)", "if self._constant_diag:     self._init_cache_for_constant_diag(eye, batch_shape, n, k) else:     self._init_cache_for_non_constant_diag(eye, batch_shape, n)", "self._precond_lt = PsdSumLinearOperator(RootLinearOperator(self._piv_chol_self), self._diag_tensor)"] ∧
+    LinOp.Generated.C10.initCacheConst = ["self._noise = self._noise.narrow(-2, 0, 1)", "self._q_cache, self._r_cache = torch.linalg.qr(torch.cat((self._piv_chol_self, self._noise.sqrt() * eye), dim=-2))", "self._q_cache = self._q_cache[..., :n, :]", "logdet = self._r_cache.diagonal(dim1=-1, dim2=-2).abs().log().sum(-1).mul(2)", "logdet = logdet + (n - k) * self._noise.squeeze(-2).squeeze(-1).log()", "self._precond_logdet_cache = logdet.view(*batch_shape) if len(batch_shape) else logdet.squeeze()"] ∧
+    LinOp.Generated.C10.initCacheNonconst = ["self._q_cache, self._r_cache = torch.linalg.qr(torch.cat((self._piv_chol_self / self._noise.sqrt(), eye), dim=-2))", "self._q_cache = self._q_cache[..., :n, :] / self._noise.sqrt()", "logdet = self._r_cache.diagonal(dim1=-1, dim2=-2).abs().log().sum(-1).mul(2)", "logdet -= (1.0 / self._noise).log().sum([-1, -2])", "self._precond_logdet_cache = logdet.view(*batch_shape) if len(batch_shape) else logdet.squeeze()"] := by
+  decide +kernel
+
 /-! ### Pivoted Cholesky (`PivotedCholesky.forward`), per batch member, any size `n`, any step count -/
 
 section pc
